@@ -1,6 +1,6 @@
 """C04 — retries respect every budget, spare non-idempotent requests, and terminate.
 
-case = {"mode": "direct"|"forwarding", "method": m, "retries": ["none"]|["false"]|["int",n]|["retry",{...}], "script": [attempt,...]}
+case = {"mode": "direct"|"forwarding"|"tunnelling", "method": m, "retries": ["none"]|["false"]|["int",n]|["retry",{...}], "script": [attempt,...]}
 attempt = {"connect": ok|refused|timeout, "send": ok|epipe|reset|other|timeout, "recv": ["resp",status,retry_after|None,keepalive]|["timeout"]|["reset"]|["eof"]|["garbage"]}
 The real HTTPConnectionPool.urlopen (redirect=False) runs over the scripted in-memory network; time.sleep of urllib3.util.retry is recorded."""
 from __future__ import annotations
@@ -16,12 +16,13 @@ GEN = ["Gen_Exc", "Gen_Urlopen", "Gen_Retry"]
 RULE = ("Retry(total, connect, read, status, other) over {None,0,1,2} (+False for total, + plain int / False / None arguments), allowed_methods in "
         "{default, None, {GET}}, status_forcelist in {{}, {500}, {503}}, raise_on_status, respect_retry_after_header, backoff in {0, 1/2}; methods "
         "GET/POST/PUT; outcome sequences up to the tier's length over {connect refused/timeout, send error/timeout (incl. swallowed EPIPE/RESET), "
-        "read timeout/reset/EOF/garbage, 200, 500, 503/429/413 with Retry-After}; direct pool and forwarding proxy; "
+        "read timeout/reset/EOF/garbage, 200, 500, 503/429/413 with Retry-After}; direct pool, forwarding proxy, and https origin through a CONNECT tunnel "
+        "(tunnel always granted, TLS not run); "
         "non-trivial = at least one retry or a raised error; distinct = distinct (case, observation)")
 TRUSTED_BASE = [
     "models coq/model/Retry.v and coq/model/RetryLoop.v; exception classification uses the class lattice and the isinstance tuples regenerated from the source (Gen_Exc, Gen_Urlopen)",
     "http.client closes the connection on ConnectionError inside getresponse (modelled as `closed_by_httpclient`); one outcome record per attempt as scripted by tools/netsim/scripted.py",
-    "tunnelling proxies (CONNECT + TLS) are not exercised here (C09 covers tunnel set-up); backoff_jitter = 0",
+    "in tunnelling mode the proxy always grants the tunnel and urllib3.connection.ssl_wrap_socket is replaced by the identity (C09 covers tunnel set-up and its failures, C07 the handshakes); backoff_jitter = 0",
 ]
 ASSUMPTIONS = ["redirects are disabled in these runs (C05 covers them)", "Retry-After is given in delta-seconds form"]
 EXHAUSTIVE = {"quick": False, "thorough": False}
@@ -74,7 +75,7 @@ def enc_attempt(a):
 
 
 def encode(case):
-    return [0 if case["mode"] == "direct" else 1, S(case["method"]), enc_arg(case["retries"]), [enc_attempt(a) for a in case["script"]]]
+    return [{"direct": 0, "forwarding": 1, "tunnelling": 2}[case["mode"]], S(case["method"]), enc_arg(case["retries"]), [enc_attempt(a) for a in case["script"]]]
 
 
 def describe(case):
@@ -105,7 +106,8 @@ _STASH = {}
 def impl(case):
     import urllib3
     import urllib3.util.retry as ur
-    from urllib3.connectionpool import HTTPConnectionPool
+    import urllib3.connection as uconn
+    from urllib3.connectionpool import HTTPConnectionPool, HTTPSConnectionPool
     from netsim.fakesock import installed
     from netsim.scripted import ScriptedNet, ScriptEnd, counting_pool_class, cname, inner_of
 
@@ -120,14 +122,27 @@ def impl(case):
         @staticmethod
         def time():
             return 1.7e9
+    def fake_wrap(sock, **kw):
+        sock.getpeercert = lambda binary_form=False: (b"" if binary_form else {})
+        sock.version = lambda: "TLSv1.3"
+        sock.selected_alpn_protocol = lambda: None
+        return sock
     old = ur.time
+    old_wrap = uconn.ssl_wrap_socket
     ur.time = FakeTime
+    uconn.ssl_wrap_socket = fake_wrap
     problems = []
+    import warnings
     try:
-        with installed(net):
+        with installed(net), warnings.catch_warnings():
+            warnings.simplefilter("ignore")
             Pool = counting_pool_class(HTTPConnectionPool, net)
             if case["mode"] == "direct":
                 pool = Pool("dest.example", 80, maxsize=1)
+            elif case["mode"] == "tunnelling":
+                pm = urllib3.ProxyManager("http://proxy.example:3128", cert_reqs="CERT_NONE")
+                pm.pool_classes_by_scheme = {"http": Pool, "https": counting_pool_class(HTTPSConnectionPool, net)}
+                pool = pm.connection_from_host("dest.example", 443, "https")
             else:
                 pm = urllib3.ProxyManager("http://proxy.example:3128")
                 pm.pool_classes_by_scheme = {"http": Pool, "https": Pool}
@@ -145,8 +160,8 @@ def impl(case):
                 snap = {f: getattr(robj, f) for f in FIELDS}
             body = b"payload" if case["method"] in ("POST", "PUT") else None
             try:
-                url = "/x" if case["mode"] == "direct" else "http://dest.example/x"
-                resp = pool.urlopen(case["method"], url, body=body, retries=arg, redirect=False, assert_same_host=(case["mode"] == "direct"))
+                url = "http://dest.example/x" if case["mode"] == "forwarding" else "/x"
+                resp = pool.urlopen(case["method"], url, body=body, retries=arg, redirect=False, assert_same_host=(case["mode"] != "forwarding"))
                 fin = [0, Z(resp.status)]
             except urllib3.exceptions.MaxRetryError as e:
                 r = e.reason
@@ -168,6 +183,7 @@ def impl(case):
             return [wires, [enc_q(Fraction(x)) for x in sleeps], fin]
     finally:
         ur.time = old
+        uconn.ssl_wrap_socket = old_wrap
         _STASH[id(case)] = problems
 
 
@@ -341,7 +357,7 @@ def cases(rng, tier):
             ["retry", {"total": None, "other": 1, "read": 1}], ["retry", {"total": 2, "allowed": None, "forcelist": [500], "raise_on_status": False}],
             ["retry", {"total": 3, "respect": False, "forcelist": [503], "backoff": "1/2"}]]
     for pol in pols:
-        for mode in ("direct", "forwarding"):
+        for mode in ("direct", "forwarding", "tunnelling"):
             for method in ("GET", "POST"):
                 for k in (1, 2):
                     for seq in itertools.product(OUTCOMES, repeat=k):
@@ -353,7 +369,7 @@ def cases(rng, tier):
         seq = [rng.choice(OUTCOMES) for _ in range(k)]
         r = rng.random()
         pol = ["retry", rand_retry(rng)] if r < 0.8 else rng.choice([["none"], ["false"], ["int", rng.randint(0, 3)]])
-        out.append({"mode": rng.choice(["direct", "direct", "forwarding"]), "method": rng.choice(["GET", "POST", "PUT"]),
+        out.append({"mode": rng.choice(["direct", "direct", "forwarding", "tunnelling"]), "method": rng.choice(["GET", "POST", "PUT"]),
                     "retries": pol, "script": seq + [OK200] * 6})
     if tier == "quick" and len(out) > 14000:
         head = out[:200]
